@@ -430,7 +430,12 @@ func (s *session) newManifest(rec *sessionRecord, v *version) (err error) {
 				s.manifestWriter.Close()
 			}
 			if !s.manifestFd.Zero() {
-				err = s.stor.Remove(s.manifestFd)
+				// The new manifest is in place; failing to remove the old
+				// one doesn't make the commit fail, it will be cleaned up
+				// when the DB is opened next.
+				if rerr := s.stor.Remove(s.manifestFd); rerr != nil {
+					s.logf("manifest@remove removing @%d %q", s.manifestFd.Num, rerr)
+				}
 			}
 			s.manifestFd = fd
 			s.manifestWriter = writer
